@@ -41,7 +41,10 @@ package vgiotel
 //@   at call metric.Int64Counter.Add assert [counted] arg2 == 1 && status == (err != nil ? "error" : "ok")
 //@   at call metric.Int64Counter.Add assert [countedonce] !counted && metricsOn && arg0 == h.requestCounter
 //@   at call metric.Int64Counter.Add mark counted
-//@   at call attribute.String#5 assert [statusattr] arg0 == "status" && arg1 == (err != nil ? "error" : "ok")
+//@   pathflag statusAttr
+//@   at call attribute.String assert [statusattr] arg0 == "status" ==> arg1 == (err != nil ? "error" : "ok")
+//@   at call attribute.String setflag statusAttr statusAttr || arg0 == "status"
+//@   at call metric.WithAttributes assert [hasstatus] statusAttr
 //@   pathflag counterRead
 //@   pathflag haveCounter
 //@   at load otelHook.requestCounter mark counterRead
